@@ -180,6 +180,18 @@ theorem gammaToNatural_moments (F : GammaFns α) (h : History α) (rate : α)
   simp only [gammaToNatural]
   constructor <;> field_simp
 
+/-- **`gammaToNatural_depends_only_on_history_and_args`: no hidden state.**  In a sequence of queries to any number of
+histories, the answer to the `i`-th query is the answer that query gets on its own — whatever was asked before, of
+whichever history — and re-ordering the queries re-orders the answers the same way.  (Trivial for the model, which is a pure
+function of (history, shape, rate); it is the statement the sequence test of the check ties to the real class, where a
+shared cache would break it.) -/
+theorem gammaToNatural_depends_only_on_history_and_args (qs : List (GammaFns α × History α × α)) :
+    (∀ i (h : i < qs.length), (gammaSequence qs)[i]'(by simpa [gammaSequence] using h)
+        = gammaToNatural qs[i].1 qs[i].2.1 qs[i].2.2) ∧
+    (∀ qs' : List (GammaFns α × History α × α), qs.Perm qs' → (gammaSequence qs).Perm (gammaSequence qs')) := by
+  refine ⟨fun i h => by simp [gammaSequence], fun qs' hp => ?_⟩
+  exact hp.map _
+
 /-- a constant-size history stores `time_breaks=[0]`, `population_size=[2N]`,
 `coalescent_breaks=[0]`, `coalescent_rate=[1/(2N)]` -/
 theorem init_const (n : α) (_hn : 0 < n) :
